@@ -173,9 +173,8 @@ Fixpoint trace_of (M : machine) (fuel : nat) (s : St M) : list ev :=
   match fuel with
   | O => []
   | S fuel' =>
-      let s' := fst (tig M s) in
-      let r := snd (tig M s) in
-      EB (rng_of (bnd M s)) :: ET r :: EB (rng_of (bnd M s')) :: (if r then trace_of M fuel' s' else [])
+      let p := tig M s in          (* one call: evaluation shares it *)
+      EB (rng_of (bnd M s)) :: ET (snd p) :: EB (rng_of (bnd M (fst p))) :: (if snd p then trace_of M fuel' (fst p) else [])
   end.
 
 (* n steps *)
